@@ -33,6 +33,8 @@ import (
 var coldStartResult string
 
 func coldStartProbe() {
+	vk.ArmProbe("C19", Case{Op: "cold-start"}) // a fatal fault in here (e.g. a write through a string) must name a case
+	defer vk.DisarmProbe()
 	type probe struct {
 		name string
 		fn   func() string
